@@ -52,6 +52,55 @@ with copy_ctx (fuel : nat) (c : N) : M N :=
     ret id
   end.
 
+(* Context::hasSameLayout / Array::hasSameLayout / Composite::hasSameLayout: one type name can have two definitions
+   (a TYPE in a procedure hiding a global one); records are assigned only between contexts with the same fields of the
+   same types in the same order, all the way down *)
+Fixpoint all2M {A B} (f : A -> B -> M bool) (l1 : list A) (l2 : list B) : M bool :=
+  match l1, l2 with
+  | a :: r1, b :: r2 => ok <- f a b ;; if ok then all2M f r1 r2 else ret false
+  | _, _ => ret true
+  end.
+Definition rec_pair_layout (sl : N -> N -> M bool) (e1 e2 : N) : M bool :=
+  c1 <- get_cell e1 ;; c2 <- get_cell e2 ;;
+  match c_val c1, c_val c2 with
+  | PRec _ x, PRec _ y => sl x y
+  | _, _ => crash "get<Composite> on other payload"
+  end.
+Definition arr_layout (sl : N -> N -> M bool) (a1 a2 : arr) : M bool :=
+  if negb (dt_eq (a_type a1) (a_type a2)) then ret false
+  else if negb (dt_is (a_type a1) KRec) then ret true
+  else all2M (rec_pair_layout sl) (a_elems a1) (a_elems a2).
+Fixpoint same_layout (fuel : nat) (dc sc : N) : M bool :=
+  match fuel with
+  | O => failm FFuel
+  | S f =>
+    dx <- get_ctx dc ;; sx <- get_ctx sc ;;
+    if negb (Nat.eqb (List.length (x_vars dx)) (List.length (x_vars sx)))
+       || negb (Nat.eqb (List.length (x_arrs dx)) (List.length (x_arrs sx))) then ret false else
+    ok <- all2M (fun (dv sv : str * N) =>
+                   d <- get_cell (snd dv) ;; s <- get_cell (snd sv) ;;
+                   if negb (dt_eq (c_type d) (c_type s)) then ret false
+                   else if dt_is (c_type d) KRec then
+                     match c_val d, c_val s with
+                     | PRec _ x, PRec _ y => same_layout f x y
+                     | _, _ => crash "get<Composite> on other payload"
+                     end
+                   else ret true) (x_vars dx) (x_vars sx) ;;
+    if negb ok then ret false else
+    all2M (fun (da sa : str * N) => a1 <- get_arr (snd da) ;; a2 <- get_arr (snd sa) ;; arr_layout (same_layout f) a1 a2)
+          (x_arrs dx) (x_arrs sx)
+  end.
+Definition arrays_same_layout (fuel : nat) (did sid : N) : M bool :=
+  a1 <- get_arr did ;; a2 <- get_arr sid ;; arr_layout (same_layout fuel) a1 a2.
+
+(* Composite::operator= : same type name (abort otherwise), same definition (runtime error raised without a source
+   position, in the record's own context), then Context::copyVariableData *)
+Definition composite_assign (cvd : N -> N -> M unit) (fuel : nat) (tn0 : str) (dc : N) (tn : str) (sc : N) : M unit :=
+  if str_eqb tn0 tn then
+    ok <- same_layout fuel dc sc ;;
+    if ok then cvd dc sc else rt_error err_token dc
+  else crash "userType.cpp Composite::operator= abort".
+
 (* Variable::set(data, copy = true) and what it reaches *)
 Fixpoint set_copy (fuel : nat) (dst : N) (src : payload) : M unit :=
   match fuel with
@@ -59,8 +108,7 @@ Fixpoint set_copy (fuel : nat) (dst : N) (src : payload) : M unit :=
   | S f =>
     d <- get_cell dst ;;
     match c_val d, src with
-    | PRec tn dc, PRec tn' sc =>
-      if str_eqb tn tn' then copy_var_data f dc sc else crash "userType.cpp Composite::operator= abort"
+    | PRec tn dc, PRec tn' sc => composite_assign (copy_var_data f) f tn dc tn' sc
     | _, _ =>
       if dk_eqb (dk (c_type d)) (payload_kind src)
       then v' <- copy_val f src ;; set_cell_val dst v'
@@ -113,7 +161,7 @@ Definition assign_val (fuel : nat) (dst : N) (v : result) : M unit :=
     end
   | KRec, Some (PRec tn sc) =>
     match c_val d with
-    | PRec tn0 dc => if str_eqb tn0 tn then copy_var_data fuel dc sc else crash "userType.cpp Composite::operator= abort"
+    | PRec tn0 dc => composite_assign (copy_var_data fuel) fuel tn0 dc tn sc
     | _ => crash "cell payload disagrees with its type"
     end
   | _, Some _ => crash "get<T> on other payload"
